@@ -829,7 +829,11 @@ def make_model_with_random_weights():
         else:
             graph_or_function = proto
         used_types: set[str] = set()
-        for t in list(graph_or_function.input) + list(graph_or_function.output):
+        typed_values = list(graph_or_function.input) + list(graph_or_function.output)
+        if self.skip_initializers and isinstance(proto, ModelProto):
+            # In this mode the types of graph.value_info are emitted as well (value_infos = {...}).
+            typed_values.extend(proto.graph.value_info)
+        for t in typed_values:
             if hasattr(t, "type"):
                 ts = _translate_type(t.type)
                 its = ts.split("[", maxsplit=1)[0]
